@@ -736,6 +736,10 @@ func PhytoOut(g *GlobalVarsMain, l *CropSharedVars, hPath *HFilePath, zeit int, 
 	} else {
 		g.NFIX = 0
 	}
+	if g.NFIX < 0 {
+		// uptake clipped per layer can exceed the demand by a rounding amount: no negative fixation
+		g.NFIX = 0
+	}
 	g.SCHNORR = g.NFIX
 	g.NFIXSUM = g.NFIXSUM + g.NFIX
 	if g.WUMAS > WUMALT {
